@@ -109,8 +109,9 @@ def _arbitrary_aux_state(c, lim, upper):
     for name, v in sorted(vars(lim).items()):
         if name in ('limit_bps', 'bucket', 'last_refill') or not isinstance(v, float):
             continue
-        x = c.fresh_real('aux_' + name, lo=0)
-        c.assume(x <= upper)
+        x = c.fresh_real(('aux_' if upper is not None else 'other_aux_') + name, lo=0)
+        if upper is not None:
+            c.assume(x <= upper)
         setattr(lim, name, x)
 
 
@@ -176,7 +177,30 @@ class _Conn:
         self.download_rate_limiter = None
 
 
-def h_window(c, k=4, kbps=None, change_at=None, new_kbps=None, direction='upload', from_init=False):
+def mk_net(c=None, conns=(), direction=None, other=None):
+    """a real Network from its real constructor (nothing is started or connected; state a change adds in __init__
+    exists, helpers a change adds next to the setters exist).  `other`: limit of the OTHER direction's limiter, which
+    then sits in an arbitrary valid state (a setter must not look at it)."""
+    from aioslsk.events import EventBus
+    from aioslsk.settings import Settings, CredentialsSettings
+    settings = Settings(credentials=CredentialsSettings(username='me', password='pw'))
+    settings.network.upnp.enabled = False
+    net = VLoop().call(Network, settings, EventBus())
+    net.peer_connections = list(conns)
+    if other is not None and direction is not None:
+        odir = 'download' if direction == 'upload' else 'upload'
+        getattr(Network, f'set_{odir}_speed_limit')(net, other)
+        olim = getattr(net, f'_{odir}_rate_limiter')
+        if type(olim) is rl.LimitedRateLimiter and c is not None:
+            ob = c.fresh_int('other_bucket', 0, None)
+            c.assume(ob <= olim.limit_bps)
+            olim.bucket = ob
+            olim.last_refill = c.fresh_real('other_last_refill', lo=0)
+            _arbitrary_aux_state(c, olim, None)
+    return net
+
+
+def h_window(c, k=4, kbps=None, change_at=None, new_kbps=None, direction='upload', from_init=False, other=None):
     """k scheduling steps of callers of take_tokens at arbitrary non-decreasing
     instants (which caller polls is irrelevant for the bucket: the limiter is shared
     and a poll is atomic).  Obligation: bytes granted in any window [t_i, t_j] are at
@@ -184,8 +208,7 @@ def h_window(c, k=4, kbps=None, change_at=None, new_kbps=None, direction='upload
     k0 = c.fresh_int('limit_kbps', 1, 10000) if kbps is None else kbps
     hints(c, k0 * 1024 if isinstance(k0, int) else None, new_kbps * 1024 if isinstance(new_kbps, int) else None)
     with Env(c.symbolic) as env:
-        net = types.SimpleNamespace(_upload_rate_limiter=None, _download_rate_limiter=None,
-                                    peer_connections=[_Conn(), _Conn()])
+        net = mk_net(c, [_Conn(), _Conn()], direction, other)
         attr = f'_{direction}_rate_limiter'
         setter = getattr(Network, f'set_{direction}_speed_limit')
         setter(net, k0)
@@ -255,14 +278,13 @@ def h_window(c, k=4, kbps=None, change_at=None, new_kbps=None, direction='upload
                         info={'i': i, 'j': j})
 
 
-def h_from_unlimited(c, k=3, new_kbps=1, direction='upload'):
+def h_from_unlimited(c, k=3, new_kbps=1, direction='upload', other=None):
     """unlimited -> limited at run time through the real Network setter: the limited
     period starts with whatever copy_tokens hands over; windows inside the limited
     period obey the bound."""
     hints(c, new_kbps * 1024)
     with Env(c.symbolic) as env:
-        net = types.SimpleNamespace(_upload_rate_limiter=None, _download_rate_limiter=None,
-                                    peer_connections=[_Conn()])
+        net = mk_net(c, [_Conn()], direction, other)
         attr = f'_{direction}_rate_limiter'
         setter = getattr(Network, f'set_{direction}_speed_limit')
         setter(net, 0)
@@ -357,7 +379,7 @@ class _FakeFile:
         return len(data)
 
 
-def h_conn(c, op='send', conn_state='NEGOTIATING_TRANSFER', old_kbps=0, new_kbps=1, when='before', sleeps=1):
+def h_conn(c, op='send', conn_state='NEGOTIATING_TRANSFER', old_kbps=0, new_kbps=1, when='before', sleeps=1, other=None):
     """a file connection exists (in `conn_state`) while the limit is changed through the
     real Network setter; afterwards the real send_file / receive_file runs on the
     virtual loop.  Every suspension in take_tokens resumes at a fresh symbolic instant.
@@ -367,7 +389,7 @@ def h_conn(c, op='send', conn_state='NEGOTIATING_TRANSFER', old_kbps=0, new_kbps
     loop = VLoop()
     with Env(c.symbolic) as env:
         rl.__dict__['asyncio'] = types.SimpleNamespace(sleep=asyncio_sleep(loop))
-        fake_net = types.SimpleNamespace(_upload_rate_limiter=None, _download_rate_limiter=None, peer_connections=[])
+        fake_net = mk_net(c, [], direction, other)
         conn = PeerConnection('1.2.3.4', 1234, fake_net, connection_type=PeerConnectionType.FILE)
         conn.state = ConnectionState.CONNECTED
         conn.connection_state = PeerConnectionState[conn_state]
@@ -535,7 +557,7 @@ class _PendingReader:
         return await self.fut
 
 
-def h_refund(c, old_kbps=0, new_kbps=1, drain=9, after=2):
+def h_refund(c, old_kbps=0, new_kbps=1, drain=9, after=2, other=None):
     """connection A sits in a pending read (tokens already taken from the limiter in force) while the download limit
     is changed through the real Network setter; another connection B drains the new limiter's initial burst; then
     A's read completes with a short chunk; then B polls again.  Bytes moved since the change + what the bucket can
@@ -544,7 +566,7 @@ def h_refund(c, old_kbps=0, new_kbps=1, drain=9, after=2):
     loop = VLoop()
     with Env(c.symbolic) as env:
         rl.__dict__['asyncio'] = types.SimpleNamespace(sleep=asyncio_sleep(loop))
-        fake_net = types.SimpleNamespace(_upload_rate_limiter=None, _download_rate_limiter=None, peer_connections=[])
+        fake_net = mk_net(c, [], 'download', other)
         conn = PeerConnection('1.2.3.4', 1234, fake_net, connection_type=PeerConnectionType.FILE)
         conn.state = ConnectionState.CONNECTED
         conn.connection_state = PeerConnectionState.TRANSFERRING
@@ -714,7 +736,7 @@ META = {
     'stubs': ['rate_limiter.time.monotonic -> harness-supplied non-decreasing symbolic real',
               'rate_limiter.asyncio.sleep -> bare suspension point (duration recorded)',
               'rate_limiter.int -> truncation toward zero on symbolic reals',
-              'Network instance -> SimpleNamespace with the three attributes the two setters touch'],
+              'Network: real constructor (Settings with credentials only, upnp off, real EventBus); never started or connected; peer_connections replaced by the harness connections'],
     'data_variables': ['limit_kbps in 1..10000 (Int)', 'bucket in 0..limit (Int)', 'last_refill >= 0 (Real)',
                        'every clock reading (Real, non-decreasing)', 'new limit 0..10000 (Int)'],
     'discriminants': ['number of polls k', 'position of the limit change', 'direction upload/download', 'which of n callers is scheduled at each step (callers harness)', 'connection state at the change'],
@@ -774,6 +796,19 @@ def jobs(tier):
                 'params': {'k': 3, 'kbps': 2, 'change_at': 1, 'new_kbps': 1, 'from_init': True}, 'requires': ['window_end']})
     out.append({'harness': 'window', 'fn': h_window,
                 'params': {'k': 4, 'kbps': 2, 'change_at': 2, 'new_kbps': 1, 'from_init': True}, 'requires': ['window_end']})
+    # the OTHER direction's limiter sits in an arbitrary state (limited, symbolic bucket / refill instant): a setter of
+    # one direction must not look at it
+    for d in ('upload', 'download'):
+        for ca in ([2] if q else [1, 2, 3]):
+            for oth in ([None, 3] if q else [None, 3, 1000]):
+                out.append({'harness': 'window', 'fn': h_window,
+                            'params': {'k': 4, 'kbps': 2, 'change_at': ca, 'new_kbps': 2, 'direction': d, 'other': oth},
+                            'requires': ['window_end']})
+        out.append({'harness': 'from_unlimited', 'fn': h_from_unlimited, 'params': {'k': 3, 'new_kbps': 1, 'direction': d, 'other': 3},
+                    'requires': ['window_end']})
+    for op in ('send', 'receive'):
+        out.append({'harness': 'conn', 'fn': h_conn,
+                    'params': {'op': op, 'conn_state': 'TRANSFERRING', 'old_kbps': 2, 'new_kbps': 1, 'other': 3}, 'requires': ['conn_end']})
     out.append({'harness': 'wait_bound', 'fn': h_wait_bound, 'params': {'n': 2, 'kbps': 1000}, 'requires': ['wait_end']})
     for kb in ([1] if q else [1, 2, 1000]):
         for o in range(0, 4):
